@@ -159,6 +159,23 @@ def load_job_payload(job: Dict[str, Any], work: Path):
     return rp
 
 
+def touch_generators(rp):
+    """the documented co-simulation idiom: take an instruction generator out of the payload and put it (or an updated
+    copy) back between two cranks.  Doing so must not change anything."""
+    from returns.result import Failure
+
+    from nrel.hive.runner import runner_payload_ops
+
+    for name in list(rp.u.step_update.instruction_generator_order):
+        ig = runner_payload_ops.get_instruction_generator_safe(rp, name)
+        if isinstance(ig, Failure):
+            continue
+        upd = runner_payload_ops.update_instruction_generator_safe(rp, ig.unwrap())
+        if not isinstance(upd, Failure):
+            rp = upd.unwrap()
+    return rp
+
+
 def observe_run(job: Dict[str, Any], work: Path) -> Dict[str, Any]:
     """execute one run variant and return its observations"""
     from nrel.hive.app import hive_cosim
@@ -186,8 +203,10 @@ def observe_run(job: Dict[str, Any], work: Path) -> Dict[str, Any]:
             del ob.obs[n_run:]
             rp = out
         else:
-            for n in split:
+            for k, n in enumerate(split):
                 rp = hive_cosim.crank(rp, n).runner_payload
+                if job.get("api_touch") and k == 0:
+                    rp = touch_generators(rp)
     finally:
         verif_hooks.install(None)
     return {"id": job["id"], "label": job["label"], "obs": ob.obs, "summary": summary_obs(rp), **extra}
